@@ -51,6 +51,13 @@ StartOf(tr, x) ==
   ELSE LET S == {StartOf(tr, tr.fkids[x][i]) : i \in 1..Len(tr.fkids[x])} \ {<<>>}
        IN IF S = {} THEN <<>> ELSE MinPos(S)
 
+(* inverse index of a sequence of node ids: idx[x] = a position of x, 0 if absent *)
+RECURSIVE IdxUpd(_, _, _, _)
+IdxUpd(f, s, i, n) ==
+  IF i > Len(s) THEN f
+  ELSE IdxUpd(IF s[i] \in 1..n THEN [f EXCEPT ![s[i]] = i] ELSE f, s, i + 1, n)
+IdxOf(s, n) == IdxUpd([x \in 1..n |-> 0], s, 1, n)
+
 (* named convention TextlessPlacement: nodes without own text keep their AST  *)
 (* field position class: the boolean operator first, ctx last                 *)
 Rank(tr, st, x) == IF tr.kind[x] \in BoolK THEN 0 ELSE IF st[x] = <<>> THEN 2 ELSE 1
@@ -65,9 +72,14 @@ Derive(tr) ==
                             \/ /\ ~(Rank(tr, st, a) = 1 /\ Lt(st[b], st[a]))
                                /\ FieldPos(tr, a) < FieldPos(tr, b)
       kids == [x \in 1..tr.n |-> IF tr.kind[x] \in FStrK THEN tr.fkids[x] ELSE SortSeq(tr.fkids[x], before)]
-      T == [n |-> tr.n, par |-> tr.par, kids |-> kids, lab |-> tr.pf]
+      T == [n |-> tr.n, par |-> tr.par, kids |-> kids, lab |-> tr.pf, sp |-> SpOf(kids, tr.par)]
+      pre  == PreD(T, 1, FALSE)
+      preb == PreD(T, 1, TRUE)
   IN [T  |-> T,
       st |-> st,
+      (* for the sequence form of step_fwd / step_back (WalkMC!ThmStepViaSeq) *)
+      pre |-> pre, preb |-> preb, ipre |-> IdxOf(pre, tr.n), ipreb |-> IdxOf(preb, tr.n),
+      size |-> [x \in 1..tr.n |-> Len(PreD(T, x, FALSE))],
       (* the six unfiltered orders from the root, computed once per program *)
       deep |-> [o \in {"enter", "leave", "both"} |-> [b \in BOOLEAN |-> Deep(T, 1, o, b)]]]
 
@@ -83,13 +95,6 @@ FSet(tr, flt) == {x \in 1..tr.n : Pass(tr, flt, x)}
 
 (* ------------------------------------------------------------ helpers ---- *)
 Ok(tr, s) == \A i \in 1..Len(s) : s[i] \in 0..tr.n            \* only ids of the tree (0 = None)
-
-(* inverse index of a sequence of node ids: idx[x] = a position of x, 0 if absent *)
-RECURSIVE IdxUpd(_, _, _, _)
-IdxUpd(f, s, i, n) ==
-  IF i > Len(s) THEN f
-  ELSE IdxUpd(IF s[i] \in 1..n THEN [f EXCEPT ![s[i]] = i] ELSE f, s, i + 1, n)
-IdxOf(s, n) == IdxUpd([x \in 1..n |-> 0], s, 1, n)
 
 B(b)  == IF b THEN "1" ELSE "0"
 WalkClass(tr, it, F) ==
@@ -192,10 +197,12 @@ NavClauses(tr, it) ==
        Cl("Nav.ChildStepEqNext", k, \A x \in All \ {1} : it.nc1[x] = it.next[x] /\ it.pc1[x] = it.prev[x]),
        Cl("Nav.ChildInverse", k, \A a \in F \ {1} : /\ (it.nc1[a] # 0 => at(it.pc1, it.nc1[a]) = a)
                                                     /\ (it.pc1[a] # 0 => at(it.nc1, it.pc1[a]) = a)),
-       Cl("Nav.StepEqSpec", k, \A x \in All : /\ it.sf[x]  = StepFwd(T, x, F, TRUE, 0)
-                                              /\ it.sfn[x] = StepFwd(T, x, F, FALSE, 0)
-                                              /\ it.sb[x]  = StepBack(T, x, F, TRUE, 0)
-                                              /\ it.sbn[x] = StepBack(T, x, F, FALSE, 0)),
+       (* StepFwd / StepBack of Walk.tla in their sequence form (equal by WalkMC!ThmStepViaSeq; linear time) *)
+       Cl("Nav.StepEqSpec", k, LET nt == NextTab(D.pre, F)  ntb == NextTab(D.preb, F) IN \A x \in All :
+                                              /\ it.sf[x]  = StepSeq(D.pre, D.ipre, nt, x, 0)
+                                              /\ it.sfn[x] = StepSeq(D.pre, D.ipre, nt, x, D.size[x] - 1)
+                                              /\ it.sb[x]  = StepSeq(D.preb, D.ipreb, ntb, x, 0)
+                                              /\ it.sbn[x] = StepSeq(D.preb, D.ipreb, ntb, x, D.size[x] - 1)),
        (* repeated step_fwd()/step_back() reproduce the walk order (real vs real) *)
        Cl("Nav.StepIterIsWalk", k, /\ Iterate(it.sf, 1, N + 1) = tailIf(it.w)
                                    /\ Iterate(it.sb, 1, N + 1) = tailIf(it.wb)),
